@@ -199,6 +199,8 @@ def parseStreamEv (e : String) : Option StreamEv :=
     | some c, some s => some (.fetch c s)
     | _, _ => none
   | ["s", l] => (natList l "+").map fun x => .ev (.settle x)
+  | ["sc", l] => (natList l "+").map fun x => .ev (.settleCommit x)
+  | ["sb"] => some (.ev .settleBook)
   | ["x", l] => (natList l "+").map fun x => .ev (.extSettle x)
   | ["r", l] => (natList l "+").map fun x => .ev (.refresh x)
   | _ => none
@@ -240,7 +242,7 @@ def handleStream (fs : Fields) : String :=
                 else go (Stream.step s3 (.query cands)) r (("bad:" ++ "+".intercalate (sel.map toString) ++ "/" ++ "+".intercalate (sel2.map toString)) :: acc)
               | none => go s2 r ("bad:nofetch" :: acc)
           | none => go s r ("bad:nofetch" :: acc)
-    let (s, sels) := go {} evs []
+    let (s, sels) := go Stream.St.ofSource evs []
     "R " ++ ";".intercalate sels ++ "|w=" ++ (if s.waiting then "1" else "0") ++ "|f=" ++ (if s.budget.isSome then "1" else "0") ++
       "|p=" ++ "+".intercalate (s.pending.map fun x => toString x.1)
 
